@@ -151,6 +151,12 @@ func main() {
 			b, _ := json.Marshal(stats)
 			os.WriteFile(*statsF, b, 0o644)
 		}
+	case "gen-tables":
+		if len(os.Args) < 3 {
+			fmt.Fprintln(os.Stderr, "usage: vh gen-tables gendir")
+			os.Exit(2)
+		}
+		genTables(os.Args[2])
 	default:
 		fmt.Fprintln(os.Stderr, "unknown command")
 		os.Exit(2)
